@@ -4,34 +4,53 @@
 EXTENDS LoaderResolve, IOUtils
 
 Seg(lo, k) == [i \in 1..k |-> lo + i - 1]
+St(lst, lo, k, j) == [list |-> lst, refs |-> Seg(lo, k), join |-> j]
 
 \* all ways to cut the references lo..hi into statements: `use r` | `refs r, ..`
 RECURSIVE Shapes(_, _)
 Shapes(lo, hi) ==
   IF lo > hi THEN {<<>>}
   ELSE UNION { LET firsts == IF k = 1
-                             THEN {[list |-> FALSE, refs |-> Seg(lo, 1)], [list |-> TRUE, refs |-> Seg(lo, 1)]}
-                             ELSE {[list |-> TRUE, refs |-> Seg(lo, k)]}
+                             THEN {St(FALSE, lo, 1, "none"), St(TRUE, lo, 1, "none")}
+                             ELSE {St(TRUE, lo, k, "none")}
                IN {<<f>> \o rest : f \in firsts, rest \in Shapes(lo + k, hi)}
              : k \in 1..(hi - lo + 1) }
 
 Files1(n) == {<<a>> : a \in Shapes(1, n)}
 Files2(n) == UNION {{<<a, b>> : a \in Shapes(1, k), b \in Shapes(k + 1, n)} : k \in 0..n}
 
-OneList(lo, hi) == IF lo > hi THEN <<>> ELSE <<[list |-> TRUE, refs |-> Seg(lo, hi - lo + 1)]>>
-Singles(lo, hi) == [i \in 1..(IF lo > hi THEN 0 ELSE hi - lo + 1) |-> [list |-> FALSE, refs |-> <<lo + i - 1>>]]
+OneList(lo, hi) == IF lo > hi THEN <<>> ELSE <<St(TRUE, lo, hi - lo + 1, "none")>>
+Singles(lo, hi) == [i \in 1..(IF lo > hi THEN 0 ELSE hi - lo + 1) |-> St(FALSE, lo + i - 1, 1, "none")]
 Mixed(lo, hi)   == IF hi - lo + 1 >= 3 THEN OneList(lo, lo + 1) \o Singles(lo + 2, hi)
                    ELSE IF hi - lo + 1 = 2 THEN Singles(lo, lo) \o OneList(hi, hi) ELSE OneList(lo, hi)
 
 NoDeps(n)  == [i \in 1..n |-> {}]
 NoSched(n) == [i \in 1..n |-> 0]
-Mk(f, sch, d, nv, unk) == [files |-> f, sched |-> sch, deps |-> d, never |-> nv, unknown |-> unk]
+Ident(n)   == [i \in 1..n |-> i]
+MkT(f, sch, d, nv, unk, t) == [files |-> f, sched |-> sch, deps |-> d, never |-> nv, unknown |-> unk, tgt |-> t]
+Mk(f, sch, d, nv, unk) == MkT(f, sch, d, nv, unk, Ident(Len(sch)))
+
+\* several references of one list pointing at the same target: all partitions of the references
+Partitions(n) == {t \in [1..n -> 1..n] : \A i \in 1..n : t[i] <= i /\ t[t[i]] = t[i]}
+
+\* objects with several reference attributes / nested objects sharing their start position (one file)
+\*   Node2: list a, list b of one object;  Node3: list, list, single of one object;
+\*   Tgt: the list of a first child, then the same-named list of its parent
+GroupAt(lo, n) ==
+  {<<St(TRUE, lo, a, "none"), St(TRUE, lo + a, n - a, "attr")>> : a \in 1..(n - 1)}
+  \cup {<<St(TRUE, lo, a, "none"), St(TRUE, lo + a, n - a, "parent")>> : a \in 1..(n - 1)}
+  \cup {<<St(TRUE, lo, a, "none"), St(TRUE, lo + a, n - 1 - a, "attr"), St(FALSE, lo + n - 1, 1, "attr")>> : a \in 1..(n - 2)}
+GroupLayouts(n) == {<<g>> : g \in GroupAt(1, n)} \cup {<<Singles(1, 1) \o g>> : g \in GroupAt(2, n - 1)}
 
 \* Families are sequences of sets (see ScenarioSets in LoaderResolve).
 \* --- C08: every list shape x every postponement schedule -------------------
 C08Of(n, F, maxp) == {Mk(f, sch, NoDeps(n), {}, {}) : f \in F, sch \in [1..n -> 0..maxp]}
 C08Full(u)  == [i \in 1..5 |-> C08Of(i - 1, Files1(i - 1), 2)] \o [n \in 1..3 |-> C08Of(n, Files2(n), 2)]
 C08Mc(u)    == [i \in 1..4 |-> C08Of(i - 1, Files1(i - 1), 2)] \o [n \in 1..2 |-> C08Of(n, Files2(n), 2)]
+C08Dup(u)   == [i \in 1..3 |-> {MkT(f, sch, NoDeps(i + 1), {}, {}, t) :
+                                   f \in {<<OneList(1, i + 1)>>, <<Mixed(1, i + 1)>>},
+                                   sch \in [1..(i + 1) -> 0..2], t \in Partitions(i + 1) \ {Ident(i + 1)}}]
+C08Grp(u)   == [i \in 1..3 |-> C08Of(i + 1, GroupLayouts(i + 1), 2)]
 C08Small(u) == [i \in 1..4 |-> C08Of(i - 1, Files1(i - 1) \cup Files2(i - 1), 2)]
 
 \* --- C09: every dependency structure (no self loops: that is `never`) -------
@@ -44,6 +63,10 @@ LayoutsMore(n) == LayoutsFew(n) \cup {<<OneList(1, 1), Singles(2, n)>>, <<Mixed(
 C09Of(n, L, NV) == {Mk(f, NoSched(n), d, nv, {}) : f \in L, d \in DepsOf(n), nv \in NV}
 C09Small(u) == [i \in 1..4 |-> C09Of(i - 1, LayoutsAll(i - 1), SUBSET (1..(i - 1)))]
 C09Mc(u)    == [i \in 1..4 |-> C09Of(i - 1, LayoutsFew(i - 1), SUBSET (1..(i - 1)))]
+C09Grp(u)   == [i \in 1..2 |-> C09Of(i + 1, GroupLayouts(i + 1), SUBSET (1..(i + 1)))]
+C09GrpFour(u) == <<C09Of(4, GroupLayouts(4), {{}})>>
+C09Dup(u)   == <<{MkT(f, NoSched(3), d, {}, {}, t) : f \in {<<OneList(1, 3)>>, <<Singles(1, 1), OneList(2, 3)>>},
+                    d \in DepsOf(3), t \in Partitions(3) \ {Ident(3)}}>>
 C09Four(u)  == <<C09Of(4, LayoutsFew(4), {{}})>>
 C09FourNever(u) == <<C09Of(4, LayoutsMore(4), SUBSET (1..4))>>
 \* schedules, dependencies, never-resolving and unknown references together
@@ -60,10 +83,11 @@ SetCode(S) == LET RECURSIVE C(_)
               IN C(S)
 ScCode(s)  == LET n == NOf(s)
                   RECURSIVE Sum(_)
-                  Sum(i) == IF i > n THEN 0 ELSE (SetCode(s.deps[i]) + s.sched[i]) * (2 * i + 1) + Sum(i + 1)
+                  Sum(i) == IF i > n THEN 0 ELSE (SetCode(s.deps[i]) + s.sched[i] + s.tgt[i]) * (2 * i + 1) + Sum(i + 1)
               IN Sum(1) + SetCode(s.never) + Len(s.files) + Len(s.files[1])
 Family(name) ==
-  CASE name = "c08"      -> C08Full(0)
+  CASE name = "c08"      -> C08Full(0) \o C08Dup(0) \o C08Grp(0)
+    [] name = "c08plain" -> C08Full(0)
     [] name = "c08small" -> C08Small(0)
     [] name = "c08mc"    -> C08Mc(0)
     [] name = "c09mc"    -> C09Mc(0)
@@ -71,8 +95,8 @@ Family(name) ==
     [] name = "c09four"  -> C09Four(0)
     [] name = "c09never" -> C09FourNever(0)
     [] name = "mixed"    -> MixedSmall(0)
-    [] name = "c09quick" -> C09Small(0) \o C09Four(0) \o MixedSmall(0)
-    [] name = "c09thorough" -> C09Small(0) \o C09FourNever(0) \o MixedSmall(0)
+    [] name = "c09quick" -> C09Small(0) \o C09Four(0) \o MixedSmall(0) \o C09Grp(0) \o C09Dup(0)
+    [] name = "c09thorough" -> C09Small(0) \o C09FourNever(0) \o MixedSmall(0) \o C09Grp(0) \o C09GrpFour(0) \o C09Dup(0)
 EnvScenarioSets == LET nsh == NatOf(IOEnv.VT_NSHARDS)
                        sh  == NatOf(IOEnv.VT_SHARD)
                        fam == Family(IOEnv.VT_FAMILY)
@@ -84,7 +108,7 @@ ASSUME \A i \in DOMAIN EnvScenarioSets : \A s \in EnvScenarioSets[i] : WellForme
 
 \* --- S->I: the scenario with the outcome the module prescribes ---------------
 EmitFinal ==
-  Idle => PrintT("FINAL|" \o ToJson([sc |-> sc, kind |-> outcome.kind, names |-> outcome.names,
-                                     attrs |-> attrs, round |-> round, attempts |-> attempts]))
+  Idle => PrintT("FINAL|" \o ToJson([sc |-> sc, kind |-> outcome.kind, names |-> NameTargets,
+                                     attrs |-> AttrTargets, round |-> round, attempts |-> attempts]))
 
 =============================================================================
